@@ -196,6 +196,9 @@ pub fn monitor(rng: &mut Rng, n: usize, rep: &mut crate::mon::Report) {
             if &now - publish > age_eff { why.push("older than the bank's maximum age") }
             if !why.is_empty() {
                 rep.fail(format!("C09 a Pyth price was ACCEPTED although the account is {}: {}", why.join(", "), lhs));
+                if *key_ok == BigInt::from(0) || *owner_ok == BigInt::from(0) {
+                    rep.fail(format!("C08 a substituted oracle account (another bank's or another program's) was accepted: {}: {}", why.join(", "), lhs));
+                }
             }
             let tw = t[2] != BigInt::from(0);
             let raw = if tw { &t[13] } else { &t[11] };
@@ -215,6 +218,9 @@ pub fn monitor(rng: &mut Rng, n: usize, rep: &mut crate::mon::Report) {
             if &now - last > age { why.push("older than the bank's maximum age") }
             if !why.is_empty() {
                 rep.fail(format!("C09 a Switchboard price was ACCEPTED although the account is {}: {}", why.join(", "), lhs));
+                if *key_ok == BigInt::from(0) || *owner_ok == BigInt::from(0) {
+                    rep.fail(format!("C08 a substituted oracle account (another bank's or another program's) was accepted: {}: {}", why.join(", "), lhs));
+                }
             }
             reported = Some((&t[9] * &one) / BigInt::from(10u8).pow(18));
         } else {
